@@ -2879,7 +2879,12 @@ primary_expression
 
           if (!IS_UNDEFINED(i1) && !IS_UNDEFINED(i2) &&
               (
-                i2 != 0 && llabs(i1) > INT64_MAX / llabs(i2)
+                // llabs(INT64_MIN) is undefined, INT64_MIN overflows with any
+                // factor other than 0 and 1.
+                i2 != 0 && i1 != 0 &&
+                ((i1 == INT64_MIN) ? (i2 != 1) :
+                 (i2 == INT64_MIN) ? (i1 != 1) :
+                 llabs(i1) > INT64_MAX / llabs(i2))
               ))
           {
             yr_compiler_set_error_extra_info_fmt(
